@@ -594,7 +594,8 @@ def families():
     grp_pats = [seq([rep(g(a), 0, None, False), b, g(c)]), seq([rep(nc([g(a, rep(b, 0, 1, False))], [z]), 0, None, False), c, g(lit('d'))]),
                 alt([seq([xx, nc([g(a)], [b]), y]), seq([xx, a, g(z)])]), seq([xx, nc([g(a)], [g(b)]), y]), nc([g(a), b], [a, g(c)]),
                 seq([nc([g(a), xx], []), g(a), y]) if False else seq([rep(grp(seq([g(a), xx]), False), 0, 1, False), g(a), y]),
-                seq([rep(grp(seq([xx, nc([g(a)], [b]), y]), False), 1, None, False), xx, a, z])]
+                seq([rep(grp(seq([xx, nc([g(a)], [b]), y]), False), 1, None, False), xx, a, z]),
+                seq([nc([g(a)], [a, b]), c]), seq([nc([g(a), b], [a, b, b]), g(c)]), seq([nc([g(a), g(b)], [a, b, b]), c])]
     # a sequence that starts with a greedy quantified group, fails as a whole, and the match goes another way
     out.append((seq([N('bol'), rep(nc([rep(g(a), 0, None, False), xx], [a, b]), 1, None, False), N('eol')]), '', ['a', 'b', 'x'], 5))
     out.append((seq([N('bol'), nc([rep(g(a), 0, None, False), xx], [rep(a, 0, None, False), y]), N('eol')]), '', ['a', 'x', 'y'], 5))
@@ -988,7 +989,19 @@ def check_case(c, r, pids):
             c.pymatches = sel
             c.first_path = sum(1 for x in sel if x is not None)
         elif not quantified_caps(node):
-            c.pymatches = [(pm, True) for pm in pms]
+            # no group under a quantifier: the group texts are compared on every match; that a group which did not take part
+            # is *absent* from analyze only where nothing that had matched was abandoned on the way (recorded finding 5: a
+            # group that matched and was given up is left emptied, not unset)
+            if ncaps(node) > 0:
+                number_groups(node)
+                rm = RefMatch(node, flags, inp)
+                sel = []
+                for pm in pms:
+                    fp = rm.first_path(pm.start())
+                    sel.append((pm, fp is not None and fp[0] == pm.end() and fp[2]))
+                c.pymatches = sel
+            else:
+                c.pymatches = [(pm, True) for pm in pms]
     return fails
 
 
